@@ -14,7 +14,7 @@ from catalogue import configs as C
 
 CTYPE = dict((t.name, t.c) for t in C.ALL)
 UTYPE = {8: 'uint8_t', 16: 'uint16_t', 32: 'uint32_t', 64: 'uint64_t'}
-ARGN = {'b': ['a', 'b', 'c', 'd'], 'm': ['m', 'n'], 's': ['s', 't'], 'u': ['u', 'v'], 'p': ['p', 'q'], 'P': ['o', 'r'], 'x': ['x', 'y']}
+ARGN = {'b': ['a', 'b', 'c', 'd'], 'm': ['m', 'n'], 's': ['s', 't', 'w'], 'k': ['k', 'l'], 'u': ['u', 'v'], 'p': ['p', 'q'], 'P': ['o', 'r'], 'x': ['x', 'y']}
 ITYPE = {8: 'int8_t', 16: 'int16_t', 32: 'int32_t', 64: 'int64_t'}
 
 
@@ -66,7 +66,7 @@ def wrapper_line(op, ty, var, cfg=None):
     names = []
     decl = []
     body = []
-    cnt = {'b': 0, 'm': 0, 's': 0, 'u': 0, 'p': 0, 'P': 0, 'x': 0}
+    cnt = {'b': 0, 'm': 0, 's': 0, 'u': 0, 'p': 0, 'P': 0, 'x': 0, 'k': 0}
     for k in op.params:
         if k == 'E':
             for i in range(nl):
@@ -84,6 +84,8 @@ def wrapper_line(op, ty, var, cfg=None):
             body.append('M_<%s> %s(%s_);' % (ct, nm, nm))
         elif k == 's':
             decl.append('%s %s' % (ct, nm))
+        elif k == 'k':
+            decl.append('bool %s' % nm)
         elif k == 'x':
             decl.append('R_<%s> %s_' % (ITYPE[ty.bits], nm))
             body.append('B_<%s> %s(%s_);' % (ITYPE[ty.bits], nm, nm))
@@ -155,6 +157,10 @@ def arg_bvs(cfg, fn, ty, names):
         elif k in ('p', 'P'):
             out.append(lanes.Ptr('arg:' + nm, 0))
             specargs.append(nm)
+        elif k == 'k':
+            bit = T.atom_bv(nm, 0, 1)
+            out.append(T.cat(bit, T.const(t.bits - 1, 0)) if t.bits > 1 else bit)
+            specargs.append([bit] * n)
         elif k == 's':
             bv = T.atom_bv(nm, 0, W)
             if t.bits > W:   # small integers are promoted to i32 by the ABI (signext/zeroext)
@@ -238,8 +244,13 @@ def analyse_wrapper(mod, cfg, fn, op, ty, var, names):
     labels = set()
     klass = 'P'
     deps_ok = True
-    for i in range(n):
-        if op.ret == 'b':
+    scalar = op.ret in ('s', 'bool')
+    for i in range(1 if scalar else n):
+        if op.ret == 's':
+            got = T.canon(T.slice_(ret, 0, W))
+        elif op.ret == 'bool':
+            got = T.slice_(ret, 0, 1)
+        elif op.ret == 'b':
             got = T.canon(T.slice_(ret, i * W, W))
         elif op.ret == 'm':
             if cfg.mask_regs:
@@ -255,6 +266,8 @@ def analyse_wrapper(mod, cfg, fn, op, ty, var, names):
             if op.ret == 'm' and not cfg.mask_regs:
                 want = T.rep(want, W)
             want = T.canon(want)
+            if op.ret == 's' and T.width(want) != W:
+                continue
             if want == got:
                 hit = (label, k)
                 break
